@@ -43,10 +43,18 @@ def spell(v, how):
             return "0x%x + 0b%s" % (v // 2, bin(v - v // 2)[2:]), None
         b = 1 if (how == "subhex1" and v + 1 >= 0) else a + 1
         return "0x%02x - 0x%x" % (v + b, b), None
+    if how == "shl":
+        # the value as a shifted small number (`1 << 63`): computed, unsized, exact at every magnitude
+        if v == 0:
+            return "(0 << 5)", None
+        k = (a & -a).bit_length() - 1
+        if k == 0:
+            return ("(%d << 1) + 1" % (a >> 1) if v > 0 else "-((%d << 1) + 1)" % (a >> 1)), None
+        return ("(%d << %d)" % (a >> k, k) if v > 0 else "-(%d << %d)" % (a >> k, k)), None
     raise ValueError(how)
 
 
-SPELLINGS = ["dec", "hex", "bin", "neg", "expr", "subhex", "subhex1", "addhex"]
+SPELLINGS = ["dec", "hex", "bin", "neg", "expr", "subhex", "subhex1", "addhex", "shl"]
 
 
 def boundaries(kind, n):
@@ -111,6 +119,7 @@ def gen_cases(chk):
             for b in boundaries(kind, n) + [0]:
                 for dv in (-2, -1, 0, 1, 2):
                     add(kind, n, b + dv, chk.rng.choice(SPELLINGS))
+                    add(kind, n, b + dv, "shl")
     return cases
 
 
